@@ -338,7 +338,7 @@ func (g *Generator) generateFlattenedUnmarshal(
 ) {
 	fieldGoName := variant.Field.GoName
 	wrapperType := variant.Field.GoIdent.GoName
-	msgType := variant.Field.Message.GoIdent.GoName
+	msgType := variant.Field.Message.GoIdent
 	fieldJSONName := variant.Field.Desc.JSONName()
 
 	// Collect all child field JSON names for this variant
@@ -381,7 +381,7 @@ func (g *Generator) generateNestedUnmarshal(
 	fieldGoName := variant.Field.GoName
 	fieldJSONName := variant.Field.Desc.JSONName()
 	wrapperType := variant.Field.GoIdent.GoName
-	msgType := variant.Field.Message.GoIdent.GoName
+	msgType := variant.Field.Message.GoIdent
 
 	gf.P("// Non-flattened unmarshal: use json.Unmarshal for child UnmarshalJSON support")
 	gf.P(`if variantRaw, exists := raw["`, fieldJSONName, `"]; exists {`)
